@@ -33,6 +33,14 @@ pub fn leafs() -> Vec<(String, Ty, Option<Lit>)> {
         let _ = d;
         v.push((format!("enum-{n}"), t, None));
     }
+    // extensible SIZE constraints whose root has no upper bound (front end and generator only: not compiled into the zoo)
+    for (sn, size) in [("xs0", Size::Range(0, None, true)), ("xs2", Size::Range(2, None, true))] {
+        for paren in [true, false] {
+            let p = if paren { "p" } else { "np" };
+            v.push((format!("oct-{sn}-{p}"), Ty::OctStr { size, paren }, None));
+            v.push((format!("utf8string-{sn}-{p}"), Ty::Str { cs: Charset::Utf8, size, paren }, None));
+        }
+    }
     for (sn, size, _) in size_forms() {
         for paren in [true, false] {
             if size == Size::Any && !paren {
